@@ -16,4 +16,5 @@ DESIGN_REF = 'DESIGN.md section 3, C03; Appendix C "Abstract sheets"'
 def bounded(ctx):
     from bounded import c03
     c03.all_domains(ctx)   # generator_doms, real_sheets, edited_doms, node_texts, content - on one process pool
+    c03.redeclarations(ctx)
     c03.witnesses(ctx)
